@@ -438,6 +438,41 @@ def check_polygon(scn, st):
     return verdict(True, st, out=sha(r.body), nontrivial=bool(ins.any() and (~ins).any()), stats=stats)
 
 
+def b_bigunion(ch):
+    """one cell is the union of M disjoint slabs (M up to 300), its neighbour is #n of it inside a box"""
+    st = St('c01 big union')
+    m = ch.choose('members', [40, 128, 129, 256, 257, 300], free=True)
+    how = ch.choose('complement', ['#n', '#( )', 'explicit'], free=True)
+    wrap = ch.choose('wrap', ['wrap5-70', 'amp-60'], free=True)
+    first = ch.choose('first-number', [1, 99900], free=True)
+    sid = [first + i for i in range(2 * m)]
+    xs = [0.5 * i for i in range(2 * m)]
+    st.surfs = ['%d px %s' % (sid[i], fmt(xs[i])) for i in range(2 * m)]
+    lo, hi = first + 2 * m + 5, first + 2 * m + 6
+    st.surfs += ['%d px -3' % lo, '%d px %s' % (hi, fmt(xs[-1] + 3.0))]
+    members = ['(%d -%d)' % (sid[2 * k], sid[2 * k + 1]) for k in range(m)]
+    union = ' : '.join(members)
+    c1, c2, c3 = first + 3000, first + 3001, first + 3002
+    if how == '#n':
+        rest = '#%d %d -%d' % (c1, lo, hi)
+    elif how == '#( )':
+        rest = '#(%s) %d -%d' % (union, lo, hi)
+    else:
+        gaps = ['(%d -%d)' % (lo, sid[0])] + ['(%d -%d)' % (sid[2 * k + 1], sid[2 * k + 2]) for k in range(m - 1)] + \
+               ['(%d -%d)' % (sid[-1], hi)]
+        rest = ' : '.join(gaps)
+    cards = ['%d 0 %s imp:n=1' % (c1, union), '%d 0 %s imp:n=1' % (c2, rest), '%d 0 -%d : %d imp:n=0' % (c3, lo, hi)]
+    width = int(wrap.split('-')[1])
+    st.cells = [wrap_card(c, width, 'amp' if wrap.startswith('amp') else 'wrap5') for c in cards]
+    # reuse the slab oracle: slab k of the list of intervals
+    bounds = [-3.0] + xs + [xs[-1] + 3.0]
+    st.slab_x = bounds
+    st.slab_owner = {k: (c2 if k % 2 == 0 else c1) for k in range(len(bounds) - 1)}
+    st.slab_imps = {c1: 1, c2: 1, c3: 0}
+    st.outside = c3
+    return st
+
+
 def check_slabs(scn, st):
     r = env.run(st.deck_text, st.options)
     if not r.ok:
@@ -480,6 +515,7 @@ def scenarios(tier):
                 'lists, cards over many lines, IMP data card with long repeats'),
             Scn('polygon', b_polygon, None, None,
                 'N-gon prisms, N = 12 ... 120 around the multiples of 50: one intersection / one union of N half-spaces'),
+            Scn('big-union', b_bigunion, None, None, 'a union of 40 ... 300 disjoint slabs and its complement'),
             Scn('p2-k3', b_p2(LITS4, [1, 2, 3]), None, None, 'full product, 4 planes, k<=3'),
             Scn('p2-mixed-k2', b_p2(LITSX, [1, 2], compl_inner=True, renumber=True), None, None,
                 'full product, oblique plane + rpp whole/facets, k<=2'),
@@ -505,6 +541,7 @@ def scenarios(tier):
             'lists, cards over many lines, IMP data card with long repeats'),
         Scn('polygon', b_polygon, None, None,
             'N-gon prisms, N = 12 ... 120 around the multiples of 50: one intersection / one union of N half-spaces'),
+        Scn('big-union', b_bigunion, None, None, 'a union of 40 ... 300 disjoint slabs and its complement'),
         Scn('p2-k4', b_p2(LITS4, [1, 2, 3, 4]), None, None, 'full product, 4 planes, k<=4'),
         Scn('p2-mixed-k3', b_p2(LITSX, [1, 2, 3], compl_inner=True), None, None,
             'full product, oblique plane + rpp whole/facets, k<=3 with inner #( )'),
